@@ -40,8 +40,10 @@ FUNCTIONS = [
     "nessai.model.Model.__getstate__",
 ]
 BOUNDS = {
-    "quick": dict(cycles="1..3 checkpoint/resume cycles", live_points=2, flags="all combinations of populated / indices empty / uninformed / mask kind (None, list, ndarray)"),
-    "thorough": dict(cycles="1..5 checkpoint/resume cycles", live_points=3, flags="all combinations of populated / indices empty / uninformed / mask kind (None, list, ndarray)"),
+    "quick": dict(cycles="1..3 checkpoint/resume cycles", live_points=2, flags="all combinations of populated / indices empty / uninformed / mask kind (None, list, ndarray)",
+                  clock="checkpoint_clock: 2 checkpoints (signal / forced / periodic, interval met or not) at arbitrary non-decreasing instants; resume_clock: one checkpoint, arbitrary downtime, loop entry with the stopping rule met, one further checkpoint"),
+    "thorough": dict(cycles="1..5 checkpoint/resume cycles", live_points=3, flags="all combinations of populated / indices empty / uninformed / mask kind (None, list, ndarray)",
+                     clock="checkpoint_clock: 4 checkpoints; resume_clock as in the quick tier"),
 }
 SCOPE = "Attributes are compared field by field between the writer and the restored object; symbolic values make a swapped or recomputed field visible."
 ASSUMPTIONS = [
